@@ -95,7 +95,11 @@ func (l *enumValueLoader) commentEnd(lex lexeme.LexEvent) {
 		panic(errors.ErrLoader)
 	}
 
-	l.enumConstraint.SetComment(l.lastIdx, lex.Value().String())
+	// A comment belongs to the value before it: before the first value there is
+	// nothing to attach it to.
+	if l.enumConstraint.Len() != 0 {
+		l.enumConstraint.SetComment(l.lastIdx, lex.Value().String())
+	}
 	l.stateFunc = l.annotationEnd
 }
 
